@@ -12,7 +12,7 @@ import (
 func init() {
 	propertyRules["C15"] = []ruleFn{ruleTimestamp, rulePool, ruleRequestArgs, ruleProposalFields, ruleCacheObl}
 	propertyExplain["C15"] = "A-TIMESTAMP: on every non-declining path of the proposal builder the stored Timestamp is max(lastBlockTimestamp + TimestampIncrement, T) — decided semantically from the path conditions and the symbolic final value — where T is the result of the truncation function, whose normal form is (UnixNano(Timer.Now()) div I)·I with I = TimestampIncrement; lastBlockTimestamp comes only from the initialiser's parameter. P-POOL: hashes and transactions are copied from the pool result index by index. P-REQUEST-ARGS: NewPrepareRequest(Timestamp, Nonce, TransactionHashes). O-PROPOSAL/L2-OBL: the primary's own block is built from the same fields and header caches are dropped on every epoch write. Sanity of the clock and nonce uniqueness are not decided."
-	propertyRules["C16"] = []ruleFn{ruleOptionalCB, ruleSubscribeOwner, ruleDeclinePure, ruleNoIdleCV, ruleForce}
+	propertyRules["C16"] = []ruleFn{ruleOptionalCB, ruleSubscribeOwner, ruleDeclinePure, ruleNoIdleCV, ruleForce, ruleRearm, ruleTimerOwner}
 	propertyExplain["C16"] = "Structural clauses only: the subscription callback and MaxTimePerBlock are called only when the extension is configured; one subscription wrapper sets the flag, which is cleared by every request send, forced timeout and epoch write; a declining proposal builder has no effect; the timeout handler's ChangeView is not reachable for an idle backup on its first view-0 timeout; OnNewTransaction forces the pending timeout only while subscribed with the timer's own epoch. Every timing clause (minimum spacing, 'only once the maximum elapsed', promptness) depends on numeric relations between durations and the clock and is not applicable to static analysis."
 	propertyRules["C09"] = []ruleFn{ruleRecoveryBuild, ruleRecoveryReplay, ruleLadder, ruleResponder, ruleRearm}
 	propertyExplain["C09"] = "Structural necessary conditions of recovery only: the recovery builder adds every stored preparation and last ChangeView, and the (pre)commits once the node has its own; the recovery handler consumes every payload getter of the RecoveryMessage interface and hands each element to OnReceive; LastChangeViewPayloads is refreshed on a view change; every admitted timeout path says something or is a deferral of the dynamic-block-time extension, and re-arms; a node with an own (pre)commit always answers a recovery request. Progress, bounds on the deciding view, partitions and restarts need multi-node timed executions: not applicable."
